@@ -90,7 +90,8 @@ class Ctx:
         return f
 
     def notice(self, rule, msg):
-        self.notices.append((rule, msg))
+        if (rule, msg) not in self.notices:
+            self.notices.append((rule, msg))
 
     def need(self, rule, what, n, minimum):
         """Fail closed when a rule finds fewer instances than were confirmed
